@@ -37,14 +37,16 @@ ASSUMPTIONS = [
     "complex problem is executed and recorded under observed_only only",
     "'precision of b' is read as: float64/complex128 data gives a float64/complex128 answer; float32 is not tested",
     "direct solvers: per-column residual <= 1e-9*|b_j| + 1e-12 (ALG); CG: <= 2*tol with the tol the object was given "
-    "(zero columns are judged absolutely); CG objects are given maxit=400 (n <= 81 unknowns, cond <= 1e3)",
+    "(zero columns are judged absolutely); CG objects are given maxit = 20 + 2n (exact-arithmetic CG needs <= n steps; measured maximum over the lattice: 1.5n)",
+    "CG with a preconditioner that factorises with SuperLU (SOR, ILU, multigrid coarse level) and a REAL matrix raises "
+    "TypeError for a complex right-hand side in every storage -- the same limitation as the documented one for real "
+    "sparse matrices: executed, recorded under observed_only, never judged",
     "optional back-ends that are not installed (pardiso, scikit-sparse, cvxopt, umfpack) are out of scope",
     "GeometricMultigrid stores its `cycle` argument but never reads it (V and W run the same code); both are "
     "executed, the property only demands that CG with that preconditioner solves the system",
 ]
 
 NT = 5          # number of pre-declared value tables
-CG_MAXIT = 400
 
 
 # ----------------------------------------------------------------------------------------------------------------
@@ -324,6 +326,10 @@ def make_precond(name, grid):
     raise KeyError(name)
 
 
+def superlu_prec(name):
+    return name.startswith(('sor', 'ilu', 'mg'))
+
+
 def mg_admissible(name, grid):
     nx, ny, nz = grid
     if any(g % 2 for g in grid):
@@ -353,7 +359,7 @@ def make_solver(case, A_init=None):
         return ps.SolverSparseLU(*args)
     if name == 'CG':
         pre = make_precond(case['prec'], case.get('grid'))
-        return ps.CG(A_init, preconditioner=pre, tol=case['tol'], maxit=CG_MAXIT)
+        return ps.CG(A_init, preconditioner=pre, tol=case['tol'], maxit=case['maxit'])
     raise KeyError(name)
 
 
@@ -433,7 +439,7 @@ def execute(case):
     if case['solver'] == 'CG' and case['prec'].startswith('mg') and not mg_admissible(case['prec'], case['grid']):
         return {'skipped': 'multigrid_needs_even_grid'}
 
-    only = case.get('only')          # narrowed replay: [step, trans, rhs, x0]
+    only_step = case.get('only_step')    # narrowed replay: every update up to that step, solves only there
     is_cg = case['solver'] == 'CG'
     n = mats[0].shape[0]
     V = []
@@ -445,8 +451,10 @@ def execute(case):
         sig = dict({'check': check}, **sig)
         if any(v['signature'] == sig for v in V):
             return
-        V.append({'check': check, 'signature': sig, 'detail': detail,
-                  'case': dict(case, only=list(point)) if point is not None else case})
+        narrowed = case
+        if point is not None:
+            narrowed = dict(case, hist=point[0] + 1, only_step=point[0], trans=point[1], rhs=[point[2]], x0=[point[3]])
+        V.append({'check': check, 'signature': sig, 'detail': detail, 'case': narrowed})
 
     storage = case['storage']
     s = None
@@ -489,7 +497,7 @@ def execute(case):
                 x0s = case.get('x0', ['none']) if is_cg else ['none']
                 for x0k in x0s:
                     point = [step, tr, rn, x0k]
-                    if only is not None and point != list(only):
+                    if only_step is not None and step != only_step:
                         continue
                     b = make_rhs(rn, n, t)
                     bc = np.iscomplexobj(b)
@@ -498,6 +506,9 @@ def execute(case):
                     if storage != 'dense' and not pA['complex'] and bc:
                         judged = False                 # documented non-support
                         tagx = 'real_sparse_complex_rhs'
+                    elif is_cg and superlu_prec(case['prec']) and not pA['complex'] and bc:
+                        judged = False                 # same limitation: the preconditioner factorises with SuperLU
+                        tagx = 'real_matrix_complex_rhs_superlu_preconditioner'
                     if x0k == 'zero_real':
                         if not (pA['complex'] or bc):
                             continue
@@ -585,10 +596,10 @@ def execute(case):
         outcomes.add(f"{lab}/{var}/{mclass}/{'ok' if ok else 'bad'}")
 
     # a narrowed descriptor must reproduce its own violation; otherwise keep the full case
-    if only is None:
+    if only_step is None:
         for v in V:
             c = v['case']
-            if c is not case and c.get('only') is not None:
+            if c is not case:
                 try:
                     again = execute(c)
                     if not any(w['signature'] == v['signature'] for w in again.get('violations', [])):
@@ -625,10 +636,8 @@ def matrix_points(fams, sizes, pattern_max_n):
     return pts
 
 
-def direct_cases(t, sizes, pattern_max_n, ctor='update', solvers=None, only_new_n=None):
+def direct_cases(t, sizes, pattern_max_n, ctor='update', solvers=None):
     for fam, n, pat in matrix_points(ALL_GEN, sizes, pattern_max_n):
-        if only_new_n is not None and n not in only_new_n:
-            continue
         for name, (fams, storages) in SOLVERS.items():
             if solvers is not None and name not in solvers:
                 continue
@@ -646,8 +655,8 @@ def cg_gen_cases(t, sizes, pattern_max_n, tols, storages, x0_rhs, ctor='update')
         for prec in PRECS_PLAIN:
             for tol in tols:
                 for st in storages:
-                    base = {'solver': 'CG', 'prec': prec, 'tol': tol, 'fam': fam, 'n': n, 'pat': pat, 'storage': st,
-                            'table': t, 'ctor': ctor, 'trans': 'NTH', 'hist': 2}
+                    base = {'solver': 'CG', 'prec': prec, 'tol': tol, 'maxit': 20 + 2 * n, 'fam': fam, 'n': n,
+                            'pat': pat, 'storage': st, 'table': t, 'ctor': ctor, 'trans': 'NTH', 'hist': 2}
                     yield from split_x0(base, x0_rhs)
 
 
@@ -667,7 +676,10 @@ def cg_fe_cases(t, grids, fams, precs, tols, storages, x0_rhs, ctor='update'):
                     continue
                 for tol in tols:
                     for st in storages:
-                        base = {'solver': 'CG', 'prec': prec, 'tol': tol, 'fam': fam, 'grid': list(grid), 'n': None,
+                        ndof = 1 if 'poisson' in fam else fe.dims(*grid)
+                        nn = fe.nnodes(*grid) * ndof
+                        base = {'solver': 'CG', 'prec': prec, 'tol': tol, 'maxit': 20 + 2 * nn, 'fam': fam,
+                                'grid': list(grid), 'n': nn,
                                 'pat': -1, 'storage': st, 'table': t, 'ctor': ctor, 'trans': 'NTH', 'hist': 2}
                         yield from split_x0(base, x0_rhs)
 
@@ -684,7 +696,7 @@ def bounds(tier, seed):
     b = {'table': t, 'second_matrix_table': (t + 1) % NT, 'n': SIZES, 'all_patterns_up_to_n': 3, 'trans': 'NTH',
          'rhs': RHS_ALL, 'history': 'update(A1); solves; update(A2); solves',
          'solvers': list(SOLVERS) + ['CG/' + p for p in PRECS_PLAIN + PRECS_MG],
-         'cond_max': {'direct': 1e4, 'iterative': 1e3}, 'cg_maxit': CG_MAXIT}
+         'cond_max': {'direct': 1e4, 'iterative': 1e3}, 'cg_maxit': '20+2n'}
     if tier == 'quick':
         b.update({'cg_tol': [1e-7], 'fe_grids': GRIDS_Q, 'fe_families': ['fe_elast_r', 'fe_elast_c', 'fe_poisson_r'],
                   'cg_storage_generated': ['dense', 'csc', 'csr'], 'fe_storage': ['csc'],
